@@ -28,6 +28,11 @@ def derive(seed, *labels):
 class Rng(_pyrandom.Random):
     """A private Mersenne twister; never the process-global one."""
 
+    # bound to the genuine methods at import time so that the RNG seam (which patches
+    # random.Random.choices / uniform while a scenario runs) never sees harness draws
+    choices = _pyrandom.Random.choices
+    uniform = _pyrandom.Random.uniform
+
     def __init__(self, seed, *labels):
         super().__init__(derive(seed, *labels))
 
